@@ -4,15 +4,15 @@ from vlib.core import Query
 INFO = {
     "claim": "Slice: the identifier mangler of genc.c (gc0InitSpecialChars + gc0ValidIdInBuf), which turns every Aldor name into the C "
              "identifier text, handles EVERY byte value of a name without an out-of-bounds table access, produces a NUL-terminated text "
-             "and never exceeds a given identifier length limit; decided by CBMC on the real genc.c. Injectivity of the mangling, the "
+             "made of C identifier characters only ([A-Za-z0-9_]) and never exceeds a given identifier length limit; decided by CBMC on the real genc.c. Distinct 1-character names get distinct texts; injectivity beyond that, the "
              "compile-and-link clauses of C16 and the hashed global-name scheme are NOT decided.",
     "level": "model_checking",
     "bounds": "names of 1 character (quick) / 2 characters (thorough), every byte value; identifier length limits 1..40",
     "outside": "gcc acceptance of the emitted files, -Cold/-Cstandard, splitting (smax), line directives, the G_<hash>_<name> scheme for "
                "globals (collisions are possible by construction), names longer than the bound (3 characters: no verdict, SAT back end out of memory); "
-               "injectivity (the solver's counterexample ':' vs ',' does not reproduce natively -- CBMC's memmove model with a symbolic source "
-               "string -- so the entry h_mangle_inj is kept in the harness but not registered)",
-    "assumptions": ["<ctype.h> tables are the real glibc C-locale ones", "output buffer is a 60-byte static array"],
+               "injectivity for names of 2 or more characters (SAT back end out of memory)",
+    "assumptions": ["<ctype.h> tables are the real glibc C-locale ones", "output buffer is a 60-byte static array",
+                    "memmove is a byte loop defined by the harness (CBMC's built-in model with a symbolic source string gave counterexamples that did not reproduce)"],
 }
 
 
@@ -25,7 +25,9 @@ def queries(ctx, extra):
                   "incomplete-array declaration of ccSpecCharIdTable trips CBMC invariant boolbv_map.cpp:68; it is given the number of "
                   "entries counted in the definition in genc.c (%d)" % n_ent)
     for n, tiers in ((1, ("quick", "thorough")), (2, ("thorough",))):
-        for e in ("h_mangle_len", "h_mangle_safe"):
+        for e in ("h_mangle_inj", "h_mangle_len", "h_mangle_safe"):
+            if e == "h_mangle_inj" and n > 1:
+                continue      # 2-character names: the SAT back end runs out of 14 GB
             qs.append(Query(name="%s_%d" % (e[2:], n), harness="c16_names.c", entry=e, srcs=["strops.c"], includes=[inc],
                             stubs=["stubs.c", "stubs_ctype.c", "stubs_print.c"], defs=["-DNLEN=%d" % n, "-DV_STO_NOFREE"],
                             unwind=260, timeout=500, mem_gb=14, object_bits=12, flags=["--max-field-sensitivity-array-size", "400"], tiers=tiers, group="name mangling",
